@@ -24,6 +24,9 @@ mod performance;
 mod score_state;
 mod strains;
 
+#[cfg(rosu_pp_verif)]
+pub mod verif;
+
 /// Marker type for [`GameMode::Mania`].
 ///
 /// [`GameMode::Mania`]: rosu_map::section::general::GameMode::Mania
